@@ -250,7 +250,8 @@ def run_schedule(lib, T, prefix, query, values, bounds, N):
 	import gambit._cython.metric as cm
 	from gambit.metric import _cast_sigs_array
 	arr = (ctypes.c_int * max(1, len(prefix)))(*prefix)
-	out = np.full(N, SENT, dtype=np.float32)
+	big = np.full(N + 128, SENT, dtype=np.float32)      # guard zones: an out-of-range slot lands here instead of corrupting the heap
+	out = big[64:64 + N]
 	lib.gompmc_arm(T, arr, len(prefix))
 	try:
 		cm._jaccarddist_parallel(_cast_sigs_array(query), _cast_sigs_array(values), bounds, out)
@@ -271,7 +272,9 @@ def run_schedule(lib, T, prefix, query, values, bounds, N):
 	ge = (ctypes.c_long * 1024)()
 	g = lib.gompmc_grants(gt, gs, ge, 1024)
 	grants = [(gt[i], gs[i], ge[i]) for i in range(g)]
-	return trace, (out, threads, grants)
+	if not (np.all(big[:64] == SENT) and np.all(big[64 + N:] == SENT)):
+		out = np.full(N, np.float32(-1.0), dtype=np.float32)     # wrote outside the output vector: make the mismatch visible
+	return trace, (out.copy(), threads, grants)
 
 
 def t_sched(N, T, P, dq, dr):
@@ -291,16 +294,27 @@ def t_sched(N, T, P, dq, dr):
 	def run(prefix):
 		return run_schedule(lib, T, prefix, query, values, bounds, N)
 
+	prev_choices = []
 	for choices, trace, (out, threads, grants) in sched.explore(run, P):
 		sh.evals += 1
 		sh.traces += 1
 		got = out.view(np.uint32)
 		if not np.array_equal(got, exp):
-			# replay twice: the same schedule must fail every time before it is reported
+			# replay twice: the same schedule must fail every time before it is reported ...
 			again = [run(choices)[1][0].view(np.uint32).tolist() for _ in range(2)]
-			if again[0] == exp.tolist() or again[1] == exp.tolist():
-				raise HarnessError(f'schedule {choices} fails only sometimes: {got.tolist()} then {again} (expected {exp.tolist()})')
-			sh.violation('schedule-dependent-output', dict(N=N, T=T, dq=dq, dr=dr, schedule=choices), exp.tolist(), got.tolist())
+			if again[0] != exp.tolist() and again[1] != exp.tolist():
+				sh.violation('schedule-dependent-output', dict(N=N, T=T, dq=dq, dr=dr, schedule=choices), exp.tolist(), got.tolist())
+			else:
+				# ... or the same two-execution history (state carried over from the previous execution) must
+				hist = []
+				for _ in range(2):
+					run(prev_choices)
+					hist.append(run(choices)[1][0].view(np.uint32).tolist())
+				if hist[0] != exp.tolist() and hist[1] != exp.tolist():
+					sh.violation('schedule-history-dependent-output', dict(N=N, T=T, dq=dq, dr=dr, schedule_history=[prev_choices, choices]), exp.tolist(), hist[0])
+				else:
+					raise HarnessError(f'schedule {choices} fails only sometimes: {got.tolist()} then {again} / {hist} (expected {exp.tolist()})')
+		prev_choices = choices
 		covered = sorted(i for (_, s, e) in grants for i in range(s, e))
 		if covered != list(range(N)):
 			sh.violation('iterations-not-partitioned', dict(N=N, T=T, dq=dq, dr=dr, schedule=choices), list(range(N)), covered)
@@ -334,7 +348,7 @@ def finalize(agg, tier):
 def replay(case, kind=None):
 	global DEFAULT
 	sh = Shard()
-	if 'schedule' in case:
+	if 'schedule' in case or 'schedule_history' in case:
 		r = child.run('mc.props.c05', 'replay_sched', dict(case=case), env={'LD_PRELOAD': shim_path(), 'OMP_NUM_THREADS': str(case['T'])})
 		return r
 	D = dims('quick')
@@ -354,7 +368,8 @@ def replay_sched(case):
 	lib.gompmc_grants.argtypes = [ctypes.POINTER(ctypes.c_int), ctypes.POINTER(ctypes.c_long), ctypes.POINTER(ctypes.c_long), ctypes.c_int]
 	query, values, bounds, sets = sched_fixture(case['N'], case['dq'], case['dr'])
 	exp = [f32bits(jaccarddist(query, np.array(s, dtype=case['dr']))) for s in sets]
-	trace, (out, threads, grants) = run_schedule(lib, case['T'], case['schedule'], query, values, bounds, case['N'])
+	for sc in case.get('schedule_history') or [case['schedule']]:
+		trace, (out, threads, grants) = run_schedule(lib, case['T'], sc, query, values, bounds, case['N'])
 	if out.view(np.uint32).tolist() != exp or sorted(i for (_, s, e) in grants for i in range(s, e)) != list(range(case['N'])):
 		return [dict(kind='schedule-dependent-output', case=case, expected=exp, observed=out.view(np.uint32).tolist())]
 	return []
